@@ -278,7 +278,8 @@ def eval_key(ev, engine, desc, must=False, src="", prefix=""):
     # a native dtype instance is boxed unchanged
     if ((engine == "pandas" and form in ("np-dtype", "pd-instance", "pd-arrowdtype", "pyarrow-instance"))
             or (engine == "polars" and form == "polars-instance") or (engine == "numpy" and form == "np-dtype")):
-        skip = form == "np-dtype" and tk is not None and tk["kind"] in ("datetime", "timedelta")
+        # (numpy's flexible types: the item size of a str / bytes dtype is a property of the data, not of the type)
+        skip = form == "np-dtype" and tk is not None and tk["kind"] in ("datetime", "timedelta", "str", "bytes")
         if not skip and not bad:
             same = _native_eq(engine, obj, nat)
             if same is not True:
@@ -533,11 +534,15 @@ def documented_extras(engine):
                   "float64", "complex64", "complex128", "bool", "int", "float", "complex", "datetime64", "timedelta64",
                   "datetime64[ns]", "timedelta64[ns]", "<i8", ">f4", "i4", "u2", "f8", "?"]:
             out.append(({"s": s}, True))
-        for n in ["int_", "intc", "uintc", "longlong", "ulonglong", "half", "single", "double", "csingle", "cdouble"]:
+        for n in ["int_", "intc", "uintc", "longlong", "ulonglong", "half", "single", "double", "csingle", "cdouble",
+                  "str_", "bytes_", "object_"]:
             out.append(({"attr": "numpy:" + n}, True))
         for s in ["int64", "int32", "float64", "float32", "bool", "object", "uint8", "complex128", "timedelta64[ns]",
-                  "datetime64[ns]"]:
+                  "datetime64[ns]", "U10", "<U3", "S5", "U", "S"]:
             out.append(({"call": "numpy:dtype", "args": [s]}, True))
+        # flexible (sized) numpy types: what np.array(["abc"]).dtype / np.array([b"ab"]).dtype are
+        for s in ["U10", "<U3", "S5", "U", "S", "str", "bytes", "object", "O"]:
+            out.append(({"s": s}, True))
     elif engine == "polars":
         for n in ["Int8", "Int16", "Int32", "Int64", "UInt8", "UInt16", "UInt32", "UInt64", "Float32", "Float64",
                   "Boolean", "String", "Utf8", "Binary", "Date", "Datetime", "Duration", "Time", "Decimal", "Categorical",
